@@ -207,6 +207,13 @@ package common
 //@   hint after WriteInt [length-field] seq(enc.buf) == cat(old(seq(enc.buf)), Be16(bytelen(val(d))))
 //@   ensures [magnitude] seq(enc.buf[old(len(enc.buf)) + 2 : len(enc.buf)]) == BigBytesOf(val(d), bytelen(val(d)))
 
+//@ -- Exact encoded lengths: every field of an input / output contributes its bytes (a dropped or duplicated field changes the length).
+//@ spec DepositLen(d *DepositData) mathint = 2 + 32 + 2 + len(d.AssetKey) + 2 + len(d.Transaction) + 8 + 2 + bytelen(val(d.Amount))
+//@ spec MintLen(m *MintData) mathint = 2 + 2 + len(m.Group) + 8 + 2 + bytelen(val(m.Amount))
+//@ spec InputLen(in *Input) mathint = 32 + 2 + 2 + len(in.Genesis) + (in.Deposit == nil ? 2 : DepositLen(in.Deposit)) + (in.Mint == nil ? 2 : MintLen(in.Mint))
+//@ spec WithdrawalLen(w *WithdrawalData) mathint = 2 + 2 + len(w.Address) + 2 + len(w.Tag)
+//@ spec OutputLen(o *Output) mathint = 2 + 2 + bytelen(val(o.Amount)) + 2 + 32 * len(o.Keys) + 32 + 2 + len(o.Script) + (o.Withdrawal == nil ? 2 : WithdrawalLen(o.Withdrawal))
+
 //@ -- Injectivity of the index field: the guard is EXACT on the mathematical value of in.Index (a uint): EncodeInput returns only for
 //@ -- in.Index <= InputIndexLimit (panic-iff) and panics only above it (panic-spec), so no index >= 65536 can be narrowed into an accepted
 //@ -- 16-bit field (k and k + 65536*m never share an encoding). Callers must prove the bound (EncodeTransaction: from DecodedTx).
@@ -215,6 +222,7 @@ package common
 //@   requires enc != nil && InputEncOK(in)
 //@   panics when in.Index > InputIndexLimit
 //@   -- WHICH value is written: after the index field the buffer is old ++ Hash ++ Be16(in.Index), in.Index being the mathematical value of the uint
+//@   ensures [length] len(enc.buf) == old(len(enc.buf)) + InputLen(in)
 //@   hint after WriteUint16 [index-field] seq(enc.buf) == cat(cat(old(seq(enc.buf)), old(seq(in.Hash))), Be16(in.Index))
 //@   modifies enc.buf, enc.buf[*]
 //@   ensures [ownbuf] arr(enc.buf) == old(arr(enc.buf)) || fresh(enc.buf)
@@ -225,6 +233,9 @@ package common
 //@   modifies enc.buf, enc.buf[*]
 //@   ensures [ownbuf] arr(enc.buf) == old(arr(enc.buf)) || fresh(enc.buf)
 //@   loop 0 invariant enc != nil && OutputOK(o) && (arr(enc.buf) == old(arr(enc.buf)) || fresh(enc.buf))
+//@   ensures [length] len(enc.buf) == old(len(enc.buf)) + OutputLen(o)
+//@   loop 0 invariant [length] len(enc.buf) == old(len(enc.buf)) + 2 + 2 + bytelen(val(o.Amount)) + 2 + 32 * (rangeindex + 1)
+//@   loop 0 invariant [globals] len(null) == 2 && len(magic) == 2   -- the cells of the package variables share the []byte component the loop writes
 
 //@ -- EncodeSignatures is NOT verified (assumption): its body needs "a range over a map runs len(m) times" (index ss[off]) and
 //@ -- sort.Slice over a slice of structs, both outside the engine's model. Its precondition is discharged at the call site.
